@@ -92,6 +92,31 @@ MUTANTS = [
     (FC, 'j_extent = prime(j_intent)\n', 'j_extent = prime(intent)\n', ['fcbo.fcbo_dual'], 'breaks'),
     (FC, 'if x & intent == x:', 'if True:', ['fcbo.fast_generate_from'], 'equivalent'),
     (FC, 'stack.append((concept, j + 1, next_property_sets))', 'stack.append((concept, j + 2, next_property_sets))', ['fcbo.fast_generate_from'], 'breaks'),
+    # completeness / exactly-once of FCbO (units fcbo.*.complete)
+    (FC, 'stack.append((concept, j + 1, next_property_sets))', 'stack.append((concept, j + 2, next_property_sets))', ['fcbo.fast_generate_from.complete'], 'breaks'),
+    (FC, '                if j_lower & intent == j_lower:', '                if True:', ['fcbo.fast_generate_from.complete'], 'breaks'),
+    (FC, 'if x & intent == x:', 'if True:', ['fcbo.fast_generate_from.complete'], 'equivalent'),
+    (FC, 'if x & intent == x:', 'if x & intent != x:', ['fcbo.fast_generate_from.complete'], 'breaks'),
+    (FC, 'next_property_sets = property_sets.copy()', 'next_property_sets = property_sets', ['fcbo.fast_generate_from.complete'], 'breaks'),
+    (FC, '                    next_property_sets[j] = j_intent', '                    pass', ['fcbo.fast_generate_from.complete'], 'equivalent'),
+    (FC, '                    next_property_sets[j] = j_intent', '                    next_property_sets[j] = intent', ['fcbo.fast_generate_from.complete'], 'equivalent'),
+    (FC, '                    next_property_sets[j] = j_intent', '                    next_property_sets[j] = Properties.supremum', ['fcbo.fast_generate_from.complete'], 'breaks'),
+    (FC, '            j_mask = j_property - 1\n\n            x = next_property_sets[j] & j_mask', '            j_mask = j_property\n\n            x = next_property_sets[j] & j_mask', ['fcbo.fast_generate_from.complete'], 'breaks'),
+    (FC, 'if property_index == n_properties or not extent:', 'if property_index == n_properties:', ['fcbo.fast_generate_from.complete'], 'equivalent'),
+    (FC, 'if property_index == n_properties or not extent:', 'if not extent:', ['fcbo.fast_generate_from.complete'], 'equivalent'),
+    (FC, 'if property_index == n_properties or not extent:', 'if property_index == n_properties or extent:', ['fcbo.fast_generate_from.complete'], 'breaks'),
+    (FC, 'stack = [(Objects.supremum.doubleprime(), 0, [Properties.infimum] * n_properties)]',
+         'stack = [(Objects.supremum.doubleprime(), 1, [Properties.infimum] * n_properties)]', ['fcbo.fast_generate_from.complete'], 'breaks'),
+    (FC, 'stack = [(Objects.supremum.doubleprime(), 0, [Properties.infimum] * n_properties)]',
+         'stack = [(Objects.supremum.doubleprime(), 0, [Properties.supremum] * n_properties)]', ['fcbo.fast_generate_from.complete'], 'breaks'),
+    (FC, '            x = next_property_sets[j] & j_mask', '            x = property_sets[j] & j_mask', ['fcbo.fast_generate_from.complete'], 'equivalent'),
+    (FC, '            if j_property & intent:\n                continue', '            if j_property & extent:\n                continue', ['fcbo.fast_generate_from.complete'], 'breaks'),
+    (FC, '        concept, property_index, property_sets = stack.pop()\n\n        yield concept', '        concept, property_index, property_sets = stack.pop()\n\n        yield concept\n        yield concept', ['fcbo.fast_generate_from.complete'], 'breaks'),
+    (FC, 'stack.append((concept, j + 1, next_object_sets))', 'stack.append((concept, j + 1, object_sets))', ['fcbo.fcbo_dual.complete'], 'breaks'),
+    (FC, '                if j_lower & extent == j_lower:', '                if j_lower & extent == j_lower or j == 0:', ['fcbo.fcbo_dual.complete'], 'equivalent'),
+    (FC, '                if j_lower & extent == j_lower:', '                if j_lower & extent == j_lower or j == 1:', ['fcbo.fcbo_dual.complete'], 'breaks'),
+    (FC, '            if extent & j_object:\n                continue', '            if extent & j_object:\n                break', ['fcbo.fcbo_dual.complete'], 'breaks'),
+    (FC, "                    next_object_sets[j] = j_extent", "                    next_object_sets[j - 1] = j_extent", ['fcbo.fcbo_dual.complete'], 'breaks'),
     (CX, "or {len(b) for b in bools} != {len(properties)}):",
          "or sum(map(len, bools)) != len(objects) * len(properties)):", ['contexts.__init__'], 'breaks'),
     (CX, "            if len(set(items)) != len(items):", "            if len(set(items)) > len(items):", ['contexts.__init__'], 'breaks'),
